@@ -86,11 +86,13 @@ theorem books_preserved_swapConfirm (s : Core) (app phKey : String) (hw : CoreWF
     Books (s.swapConfirm app phKey) ∧ CoreWF (s.swapConfirm app phKey) :=
   swapConfirm_props s app phKey hw hb hok
 
-/-- In the step that confirms a replacement the application leaves the partition only by failing (I7t); the former
+/-- In the step that confirms a replacement the application leaves the partition only by failing, and (fix 81c5cb7) only
+    when it holds no other real allocation — the replacement itself then becomes the allocation of a Failed application
+    (what is left of KNOWN_FINDINGS C03.I7t: the swap of a failing application is confirmed); the former
     variant — a Completing / idle-looking application completing right before its real allocation is added (I7c) — is
     gone with fix 3b9e769, which the model mirrors (`replApp`, `relAppT`). -/
 theorem swapConfirm_leaves_only_failing (p r : CItem) (a : CApp) (h : (replApp p r a).live = false) :
-    a.state = "Failing" ∨ terminated a.state = true :=
+    (a.state = "Failing" ∧ isZero (some a.allocated) = true) ∨ terminated a.state = true :=
   replApp_leaves_only_failing p r a h
 
 /-- release of every allocation (and, unless TIMEOUT, every ask) of an application -/
